@@ -262,3 +262,201 @@ def _run_per_valuation(stmts, inputs, domains, outputs, opts, evaluate, why):
     else:
         res["status"] = "pass" if n_eval else "inconclusive"
     return res
+
+
+# ------------------------------------------------------------------------------------------
+# explicit-state search over input histories (DESIGN 2.4 b)
+# ------------------------------------------------------------------------------------------
+def _observe_named(circ, st, views, ents):
+    obs = {}
+    for o, view in views.items():
+        if view[0] in ("anchor", "const"):
+            obs[o] = observe.read_output(circ, st, view)
+        else:
+            obs[o] = None
+    for name, num in ents.items():
+        obs[name] = circ.entity_condition(st, num)[0]
+    return obs
+
+
+def _match(circ, views, obs, exp):
+    """Compare observation with expectation {name: Sig|Bun|bool}.  Returns list of problems."""
+    bad = []
+    for o, e in exp.items():
+        got = obs.get(o)
+        if isinstance(e, bool):
+            if got is not e:
+                bad.append((o, got, e))
+            continue
+        if got is None:
+            bad.append((o, "unobservable", None))
+            continue
+        if isinstance(e, lang.Bun):
+            g = observe.by_name(got)
+            if g != dict(e):
+                bad.append((o, g, dict(e)))
+        else:
+            ok, g, note = expect_scalar(circ, got, views[o], e)
+            if not ok:
+                bad.append((o, note or g, (e.type, e.value)))
+    return bad
+
+
+def find_entity_at(bp, proto, x, y):
+    """Entity of prototype `proto` whose top-left tile is (x, y) (1x1 and larger prototypes)."""
+    from . import geometry
+    out = []
+    for e in bp["entities"]:
+        if e["name"] != proto:
+            continue
+        tx, ty = geometry.top_left_tile(e)
+        if (tx, ty) == (x, y):
+            out.append(e["entity_number"])
+    return out
+
+
+def run_bfs(stmts, inputs, domains, opts, outputs, ref_init, ref_step, ref_expect,
+            entities=None, hold=None, cap=4000, settle_horizon=None):
+    """BFS from the power-on state over events "set input x to v".
+    ref_step(rs, valuation, event) -> list of acceptable next reference states (hashable)
+    ref_expect(rs, valuation) -> {name: Sig | Bun | bool}
+    entities: {name: (proto, x, y)} user entities whose circuit condition is observed as bool
+    hold(rs_before, rs_after, event) -> True if every tick of this transition must already
+        show the (unchanged) expectation (the property's "keeps ... whatever v does")."""
+    try:
+        circ, inp, spec = compile_with_inputs(stmts, inputs, opts)
+    except harness.Rejected as ex:
+        return {"status": "rejected", "detail": str(ex)[:300], "outcome": "rejected:" + ex.kind}
+    if inp.problems or spec:
+        return {"status": "inconclusive", "outcome": "specialised",
+                "detail": f"circuit depends on input placeholders: {inp.problems}"}
+    views = {o: observe.output_view(circ, o) for o in outputs}
+    ents = {}
+    for name, (proto, x, y) in (entities or {}).items():
+        nums = find_entity_at(circ.bp, proto, x, y)
+        if len(nums) != 1:
+            return {"status": "fail", "digest": sha(["entity", name, len(nums)]),
+                    "detail": {"src": lang.show_prog(stmts), "problem": f"{len(nums)} entities {proto} at {(x, y)}"}}
+        ents[name] = nums[0]
+    horizon = settle_horizon or (2 * len(circ.combs) + 12)
+    val0 = {i: domains[i][0] for i in inputs}
+    inp.set(val0)
+    bad = []
+    n_trans = 0
+    n_ticks = 0
+    outcomes = set()
+
+    def record(hist, kind, info):
+        if len(bad) < 50:
+            bad.append((hist, kind, info))
+
+    try:
+        st, k = circ.settle(circ.initial_state(), horizon)
+    except Unmodelled as ex:
+        return {"status": "inconclusive", "outcome": "unmodelled", "detail": str(ex)}
+    rs_cands = ref_step(ref_init, val0, None)
+    obs = _observe_named(circ, st, views, ents)
+    rs0 = None
+    if k is None:
+        record([], "unsettled-at-power-on", None)
+        rs0 = rs_cands[0]
+    else:
+        probs = None
+        for rs in rs_cands:
+            probs = _match(circ, views, obs, ref_expect(rs, val0))
+            if not probs:
+                rs0 = rs
+                break
+        if rs0 is None:
+            record([], "power-on", probs)
+            rs0 = rs_cands[0]
+    start = (canon_state(st), tuple(sorted(val0.items())), rs0)
+    seen = {start: None}
+    queue = collections.deque([start])
+    capped = False
+    maxdepth = 0
+    depth = {start: 0}
+    while queue:
+        node = queue.popleft()
+        cs, valt, rs = node
+        val = dict(valt)
+        for x in inputs:
+            for v in domains[x]:
+                if val[x] == v:
+                    continue
+                nv = dict(val)
+                nv[x] = v
+                inp.set(nv)
+                cands = ref_step(rs, nv, (x, v))
+                st = uncanon_state(cs)
+                must_hold = hold(rs, cands, (x, v)) if hold else False
+                settled = None
+                tick_bad = None
+                try:
+                    for t in range(horizon):
+                        new = circ.tick(st)
+                        n_ticks += 1
+                        if new == st:
+                            settled = t
+                            break
+                        st = new
+                        if must_hold and tick_bad is None:
+                            o2 = _observe_named(circ, st, views, ents)
+                            p2 = _match(circ, views, o2, ref_expect(rs, nv))
+                            if p2:
+                                tick_bad = (t, p2)
+                except Unmodelled as ex:
+                    return {"status": "inconclusive", "outcome": "unmodelled", "detail": str(ex)}
+                n_trans += 1
+
+                def history():
+                    h = [(x, v)]
+                    p = node
+                    while seen[p] is not None:
+                        h.append(seen[p][1])
+                        p = seen[p][0]
+                    return list(reversed(h))
+                if settled is None:
+                    record(history(), "unsettled", None)
+                    continue
+                if tick_bad is not None:
+                    record(history(), "disturbed-during-hold", tick_bad)
+                obs = _observe_named(circ, st, views, ents)
+                chosen = None
+                probs = None
+                for c in cands:
+                    probs = _match(circ, views, obs, ref_expect(c, nv))
+                    if not probs:
+                        chosen = c
+                        break
+                if chosen is None:
+                    record(history(), "settled-state", probs)
+                    chosen = cands[0]
+                outcomes.add(json.dumps({o: (observe.by_name(g) if isinstance(g, dict) else g)
+                                         for o, g in obs.items()}, sort_keys=True, default=str))
+                nxt = (canon_state(st), tuple(sorted(nv.items())), chosen)
+                if nxt not in seen:
+                    if len(seen) >= cap:
+                        capped = True
+                        continue
+                    seen[nxt] = (node, (x, v))
+                    depth[nxt] = depth[node] + 1
+                    maxdepth = max(maxdepth, depth[nxt])
+                    queue.append(nxt)
+    res = {"evaluations": n_trans, "states": len(seen), "transitions": n_trans, "ticks": n_ticks,
+           "traces": n_trans, "compiles": 2, "max_depth": maxdepth, "capped": capped,
+           "nontrivial": len(outcomes) > 1,
+           "sample": {"src": lang.show_prog(stmts)[:500], "states": len(seen), "transitions": n_trans,
+                      "distinct_observations": len(outcomes)}}
+    if bad:
+        bad.sort(key=lambda b: len(b[0]))
+        res["status"] = "fail"
+        res["digest"] = sha([(h, kind, str(info)) for h, kind, info in bad[:20]])
+        res["detail"] = {"src": lang.show_prog(stmts), "opts": opts,
+                         "shortest_history": bad[0][0], "kind": bad[0][1], "info": str(bad[0][2])[:500],
+                         "n_bad_transitions": len(bad)}
+        res["outcome"] = "fail"
+    else:
+        res["status"] = "pass"
+        res["outcome"] = "pass"
+    return res
